@@ -60,16 +60,16 @@ func init() {
 		Patterns:    []string{pkgAst, pkgNs},
 		HarnessDirs: []string{"internal/schema"},
 		Runs: func(tier string) []Run {
-			L := pick(tier, 6, 8)
 			return []Run{
-				{Name: "expression-tokens", Pkg: pkgSchema, Harness: "HarnessC10Tokens", Params: map[string]int64{"L": L}, Overrides: lexerOverride, Reach: []string{"c10.reference-accepts"}},
+				{Name: "expression-tokens", Pkg: pkgSchema, Harness: "HarnessC10Tokens", Params: map[string]int64{"L": pick(tier, 9, 12), "viable": 1}, Overrides: lexerOverride, Reach: []string{"c10.reference-accepts"}},
+				{Name: "expression-tokens-unrestricted", Pkg: pkgSchema, Harness: "HarnessC10Tokens", Params: map[string]int64{"L": pick(tier, 5, 7), "viable": 0}, Overrides: lexerOverride, Reach: []string{"c10.reference-accepts"}},
 				{Name: "nesting-limit", Pkg: pkgSchema, Harness: "HarnessC10Nesting", Overrides: lexerOverride, Reach: []string{"c10.reference-accepts"}},
 				{Name: "spellings", Pkg: pkgSchema, Harness: "HarnessC10Spellings", Params: map[string]int64{"full": pick(tier, 0, 1)}, Reach: []string{"c10.spelling.parsed"}},
 			}
 		},
 		Bounds: func(tier string) map[string]interface{} {
 			return map[string]interface{}{
-				"expression tokens": "every sequence of at most " + itoa(pick(tier, 6, 8)) + " tokens over {A,B,C,&&,||,!,(,)} (atoms = this.related.x.includes(ctx.subject)); token choice by forking on viable prefixes, the 8 valuations of the atoms by one solver query per expression",
+				"expression tokens": "every expression of the reference grammar of at most " + itoa(pick(tier, 9, 12)) + " tokens over {A,B,C,&&,||,!,(,)} (atoms = this.related.x.includes(ctx.subject)): token choice by forking over the tokens that keep the prefix inside the grammar, the 8 valuations of the atoms by one solver query per expression; in addition every token sequence (in or outside the grammar) of at most " + itoa(pick(tier, 5, 7)) + " tokens",
 				"nesting":           "chains of 1..11 nested '(' and '!'",
 				"spellings":         "variant space of the syntactic sites enumerated by forking, concrete text through the real lexer",
 			}
@@ -130,6 +130,18 @@ var engineOverrides = map[string]string{
 	"github.com/ory/keto/internal/x/graph.CheckAndAddVisited":                             "verifCheckAndAddVisited",
 }
 
+// lemmaP: the real sql.Traverser on the database model returns what the
+// storage specification (on which the engine harnesses run) returns.
+func lemmaP(tier string) Run {
+	ov := map[string]string{}
+	for k, v := range dbOverrides {
+		ov[k] = v
+	}
+	ov["(*github.com/ory/keto/internal/driver/config.Config).StrictMode"] = "dbCfgStrictMode"
+	ov["(*github.com/ory/keto/internal/driver/config.Config).NamespaceManager"] = "dbCfgNamespaceManager"
+	return Run{Name: "lemma-P-sql-traverser-refines-storage-spec", Pkg: pkgSQL, Harness: "HarnessC06Traverse", Params: map[string]int64{"K": pick(tier, 3, 4)}, Overrides: ov, Reach: []string{"c06.expansion", "c06.rewrite"}}
+}
+
 func engineRun(name, harness string, params map[string]int64) Run {
 	for k, v := range map[string]int64{"shapes": 0, "modes": 0, "setSubjects": 0, "alts": 2, "G": 12, "W": 64} {
 		if _, ok := params[k]; !ok {
@@ -142,8 +154,8 @@ func engineRun(name, harness string, params map[string]int64) Run {
 func init() {
 	register(&Property{
 		ID:          "C01",
-		Patterns:    enginePatterns,
-		HarnessDirs: []string{"internal/check/zzverif"},
+		Patterns:    append(append([]string{}, enginePatterns...), sqlPatterns...),
+		HarnessDirs: []string{"internal/check/zzverif", "internal/persistence/sql"},
 		ReplayTags:  "sqlite",
 		Runs: func(tier string) []Run {
 			mk := func(name string, fam, k, objs, shapes, modes int64) Run {
@@ -156,12 +168,14 @@ func init() {
 					mk("plain-and-schemaless", 0, 4, 2, 0, 0),
 					mk("operator-pairs", 1, 3, 2, 0, 0),
 					mk("and-not-below-expansion", 2, 3, 3, 0, 0),
+					lemmaP(tier),
 				}
 			}
 			return []Run{
 				mk("plain-and-schemaless", 0, 3, 2, 0, 0),
 				mk("operator-set", 4, 2, 2, 0, 0),
 				mk("and-not-below-expansion", 2, 3, 2, 2, 1),
+				lemmaP(tier),
 			}
 		},
 		Bounds: func(tier string) map[string]interface{} {
@@ -293,11 +307,12 @@ func init() {
 func init() {
 	register(&Property{
 		ID:          "C16",
-		Patterns:    enginePatterns,
-		HarnessDirs: []string{"internal/check/zzverif"},
+		Patterns:    append(append([]string{}, enginePatterns...), sqlPatterns...),
+		HarnessDirs: []string{"internal/check/zzverif", "internal/persistence/sql"},
 		ReplayTags:  "sqlite",
-		Assumptions: []string{"MappingManager replaced by an injective string<->UUID table (stubMapping); equality of the opaque symbolic strings is decided by the solver", "namespaces N and M configured through the real memory namespace manager"},
-		Outside:     []string{"the SQL mapping manager (batchFromUUIDs paging by 100, MapStringsToUUIDs insert): not covered in this check", "batches larger than the bound"},
+		NoReplay:    map[string]string{"HarnessC16SQLMapping": "keto_uuid_mappings table of the database model (symbolic presence flags, chosen map iteration order)", "HarnessC16SQLLarge": "database model"},
+		Assumptions: []string{"SQL runs: keto_uuid_mappings is a model table (primary key id, ON CONFLICT DO NOTHING / INSERT IGNORE honoured, SELECT ... WHERE id in (?) returns rows in table order); uuid.NewV5 computed natively (SHA-1 injectivity assumed); iter.Pull drains the finite sequence eagerly; every iteration order of the id map with 2..3 entries is a separate path", "engine-side runs: MappingManager replaced by an injective string<->UUID table (stubMapping); equality of the opaque symbolic strings is decided by the solver", "namespaces N and M configured through the real memory namespace manager"},
+		Outside:     []string{"batches larger than the bounds", "names outside the adversarial pool in the SQL runs (the SQL code moves strings and never inspects them; the engine-side runs use opaque symbolic strings)", "map iteration orders of maps with more than 3 entries (insertion order only)", "collation / normalisation behaviour of a real database's text column"},
 		Runs: func(tier string) []Run {
 			a := engineRun("tuples", "HarnessC16Tuples", map[string]int64{"nmax": pick(tier, 2, 3)})
 			a.Reach = []string{"c16.mapped"}
@@ -305,10 +320,31 @@ func init() {
 			b.Reach = []string{"c16.query"}
 			c := engineRun("tree", "HarnessC16Tree", map[string]int64{})
 			c.Reach = []string{"c16.tree"}
-			return []Run{a, b, c}
+			runs := []Run{a, b, c}
+			dialects := []int64{0, 3}
+			if tier == "thorough" {
+				dialects = []int64{0, 1, 2, 3}
+			}
+			for _, d := range dialects {
+				m := sqlRun("sql-mapping-dialect-"+itoa(d), "HarnessC16SQLMapping", map[string]int64{"nmax": pick(tier, 3, 4), "pool": pick(tier, 4, 6), "dialect": d})
+				m.MapOrder = true
+				m.Reach = []string{"c16.sql.roundtrip", "c16.sql.read"}
+				runs = append(runs, m)
+			}
+			l := sqlRun("sql-batches-around-the-lookup-page", "HarnessC16SQLLarge", map[string]int64{"step": 1, "dialect": 0})
+			l.Reach = []string{"c16.sql.large"}
+			runs = append(runs, l)
+			if tier == "thorough" {
+				l2 := sqlRun("sql-batches-of-several-lookup-pages", "HarnessC16SQLLarge", map[string]int64{"step": 50, "dialect": 3})
+				l2.Reach = []string{"c16.sql.large"}
+				runs = append(runs, l2)
+			}
+			return runs
 		},
 		Bounds: func(tier string) map[string]interface{} {
-			return map[string]interface{}{"batch size": "0.." + itoa(pick(tier, 2, 3)), "names": "opaque symbolic strings (any length and content) with arbitrary equalities among them", "query shapes": "all 2^3 x 3", "trees": "3-4 nodes"}
+			return map[string]interface{}{"batch size": "0.." + itoa(pick(tier, 2, 3)), "names": "opaque symbolic strings (any length and content) with arbitrary equalities among them", "query shapes": "all 2^3 x 3", "trees": "3-4 nodes",
+				"sql mapping": "batches of 1.." + itoa(pick(tier, 3, 4)) + " positions over a pool of " + itoa(pick(tier, 4, 6)) + " adversarial names with repeats; table = any subset of the pool's mappings of two networks (symbolic presence); lookup page 1, 2, 3 or default; write+read and read-only; dialects " + map[bool]string{false: "sqlite3, mysql", true: "sqlite3, postgres, cockroach, mysql"}[tier == "thorough"],
+				"sql large":   "99..102 distinct names (thorough also 149, 199, 249) x {no repeats, first repeated 3x at the end, all twice interleaved, all twice block-wise} x {empty table, every other mapping present}, default lookup page 100"}
 		},
 	})
 }
